@@ -28,8 +28,8 @@ RULE = ("one case = a source array (one of 7 kinds x 5 subtypes, missing and emp
         "element against the model list, expected exception types for invalid requests, and "
         "bounds / total_bounds / length / area / intersects_bounds / intersects(shape) / "
         "hilbert_distance on the derived array against the same quantities on a fresh array built "
-        "from the model list. Non-trivial: >= 3 successful derivation steps; distinct = distinct "
-        "operation-sequence digests.")
+        "from the model list. Non-trivial: >= 3 successful derivation steps; distinct = distinct (input, "
+        "operation sequence) digests.")
 ASSUMPTIONS = [
     "sequential refinement only: this property has no schedule, clock or fault in it; pickle and "
     "parquet round trips play the role of 'restart with only durable state surviving'",
@@ -111,7 +111,8 @@ def run_case(case):
             raise
         except Bad as b:
             bad = (b.cls, b.msg)
-    digest = hashlib.sha256(json.dumps([kind, subtype, done], default=str).encode()).hexdigest()[:16]
+    digest = hashlib.sha256(json.dumps([kind, subtype, case["values"], done],
+                                       default=str).encode()).hexdigest()[:16]
     st = {"events": len(done), "switches": 0, "sim_time": sim.now, "tasks": 0}
     if bad:
         return result(False, bad[0], bad[1], sig, digest, True, probes, **st)
